@@ -75,6 +75,10 @@ class HedIDValidator:
         tag_library = tag_entry.has_attribute(HedKey.InLibrary, return_value=True)
         if not tag_library:
             tag_library = ""
+        elif isinstance(tag_library, str):
+            # An inheritable string attribute is the comma-join over the tag and its ancestors ("score,score");
+            # the library of the tag is the nearest one.
+            tag_library = tag_library.split(",")[0]
 
         previous_schema = self._previous_schemas.get(tag_library)
         if previous_schema:
